@@ -13,7 +13,7 @@ for pair in "patch.diff demo.rs" "patch2.diff demo2.rs" "patch3.diff demo3.rs"; 
     python3 - $P-$suf <<'PY'
 import json,sys
 p='/verif/seeded/%s/meta.json'%sys.argv[1]
-d=json.load(open(p)); d['round']=3; d['base_commit']='47e2b50'; json.dump(d,open(p,'w'),indent=1)
+d=json.load(open(p)); d["round"]=int(__import__("os").environ.get("ROUND","3")); d['base_commit']='47e2b50'; json.dump(d,open(p,'w'),indent=1)
 PY
     timeout 3000 tools/try_mutant.sh /verif/seeded/$P-$suf/patch.diff "$@" | cut -c1-100 | sed "s/^/$P-$suf: /"
   fi
